@@ -34,7 +34,9 @@ macro_rules! fail {
 /// Per-case observation context.
 pub struct Ctx {
     pub classes: BTreeMap<String, u64>,
-    pub nontrivial: Option<u64>,
+    pub nontrivial: Vec<u64>,
+    /// number of evaluations this case stands for (block-structured enumerations)
+    pub evals: u64,
     pub sample: Option<String>,
     pub want_sample: bool,
     pub known_hits: Vec<(String, String)>,
@@ -44,7 +46,7 @@ pub struct Ctx {
 
 impl Ctx {
     pub fn new(want_sample: bool) -> Self {
-        Ctx { classes: BTreeMap::new(), nontrivial: None, sample: None, want_sample, known_hits: vec![], replay: false }
+        Ctx { classes: BTreeMap::new(), nontrivial: Vec::new(), evals: 1, sample: None, want_sample, known_hits: vec![], replay: false }
     }
     pub fn class(&mut self, label: &str) {
         *self.classes.entry(label.to_string()).or_insert(0) += 1;
@@ -54,7 +56,7 @@ impl Ctx {
     }
     /// Declare this case non-trivial by the property's rule, with a hash of the abstract case.
     pub fn nontrivial(&mut self, key: u64) {
-        self.nontrivial = Some(key);
+        self.nontrivial.push(key);
     }
     pub fn sample_with(&mut self, f: impl FnOnce() -> String) {
         if self.want_sample && self.sample.is_none() {
@@ -269,8 +271,8 @@ struct Acc {
 
 impl Acc {
     fn absorb(&mut self, ctx: Ctx) {
-        self.evaluations += 1;
-        if let Some(h) = ctx.nontrivial {
+        self.evaluations += ctx.evals;
+        for h in ctx.nontrivial {
             self.hashes.insert(h);
         }
         for (k, v) in ctx.classes {
@@ -452,15 +454,10 @@ fn worker_body(p: &Property, a: &WorkerArgs) -> J {
         }
     }
 
-    // Phase B: exhaustive enumerations, in blocks of 256 indices
+    // Phase B: exhaustive enumerations, indices dealt round-robin to the workers
     let n_exh = (p.exh_count)(a.tier);
-    let mut idx = 0u64;
+    let mut idx = a.widx;
     while idx < n_exh && acc.failures.len() < 3 {
-        let block = idx / 256;
-        if block % a.nworkers != a.widx {
-            idx = (block + 1) * 256;
-            continue;
-        }
         journal_write(&mut journal, &format!("exh {}", idx));
         mark_case_start();
         let mut ctx = Ctx::new(acc.want_sample());
@@ -470,7 +467,7 @@ fn worker_body(p: &Property, a: &WorkerArgs) -> J {
         if let Err(msg) = r {
             acc.failures.push(json!({"kind":"exh","index":idx,"msg":msg}));
         }
-        idx += 1;
+        idx += a.nworkers;
     }
 
     // Phase C: proptest-driven tapes, chunked
@@ -620,6 +617,7 @@ pub fn supervisor_main(p: &Property, tier: Tier, extra: Option<&ExtraEvidence>) 
                 outp.to_str().unwrap(),
                 &cases.to_string(),
             ])
+            .env("VERIF_TIER_INTERNAL", tier.name())
             .stdout(Stdio::null())
             .stderr(Stdio::piped())
             .spawn()
